@@ -646,12 +646,12 @@ var checks = map[string]Check{
 	},
 	"C14": {
 		Level:       "model_checking",
-		Rule:        "race mode: the scenario binary is built with -race; the scheduler's hand-off is invisible to the detector and the shims publish exactly the happens-before edges of the real primitives, so every explored schedule is checked for data races exactly; scenarios: 2-3 threads each performing one documented-concurrent operation {Call, AsyncCall, Push, SetID, Swap store/load, Close, remote Close, GetSession, RangeSession, CountSession, age setters/getters, Health/ID, server-side Call} on shared sessions/peers; 21 operation pairs (quick) / all pairs and selected triples (thorough) x all interleavings up to the preemption bound; raw protocol plus three thrift-binary pairs (both directions at once); plus Dial with redial enabled against a server that drops the new connection at once while another goroutine enumerates, counts or pushes on the peer's sessions",
+		Rule:        "race mode: the scenario binary is built with -race; the scheduler's hand-off is invisible to the detector and the shims publish exactly the happens-before edges of the real primitives, so every explored schedule is checked for data races exactly; scenarios: 2-3 threads each performing one documented-concurrent operation {Call, AsyncCall, Push, SetID, Swap store/load, Close, remote Close, GetSession, RangeSession, CountSession, age setters/getters, Health/ID, server-side Call, a call answered with an error whose status is read later} on shared sessions/peers; 23 operation pairs (quick) / all pairs and selected triples (thorough) x all interleavings up to the preemption bound; raw protocol plus three thrift-binary pairs (both directions at once); plus Dial with redial enabled against a server that drops the new connection at once while another goroutine enumerates, counts or pushes on the peer's sessions",
 		Assumptions: append([]string{"a race report is attributed to the schedule in which it first appears (the detector reports each racing pair once per process); reports produced while an execution is being torn down are ignored"}, baseAssumptions...),
 		Jobs: func(tier string) []Job {
-			pairs := [][]string{{"call", "call"}, {"call", "push"}, {"call", "close"}, {"call", "rclose"}, {"call", "setid"}, {"call", "swap"}, {"call", "srvcall"}, {"push", "close"}, {"setid", "lookup"}, {"setid", "range"}, {"setid", "count"}, {"setid", "setid"}, {"swap", "swap"}, {"close", "rclose"}, {"close", "close"}, {"close", "lookup"}, {"close", "range"}, {"async", "close"}, {"ages", "call"}, {"health", "close"}, {"srvcall", "rclose"}}
+			pairs := [][]string{{"call", "call"}, {"call", "push"}, {"call", "close"}, {"call", "rclose"}, {"call", "setid"}, {"call", "swap"}, {"call", "srvcall"}, {"push", "close"}, {"setid", "lookup"}, {"setid", "range"}, {"setid", "count"}, {"setid", "setid"}, {"swap", "swap"}, {"close", "rclose"}, {"close", "close"}, {"close", "lookup"}, {"close", "range"}, {"async", "close"}, {"ages", "call"}, {"health", "close"}, {"srvcall", "rclose"}, {"errcall", "call"}, {"errcall", "errone"}}
 			if tier == "thorough" {
-				ops := []string{"call", "push", "setid", "swap", "close", "lookup", "range", "count", "ages", "srvcall", "rclose", "health", "async"}
+				ops := []string{"call", "push", "setid", "swap", "close", "lookup", "range", "count", "ages", "srvcall", "rclose", "health", "async", "errcall", "errone"}
 				pairs = nil
 				for i, a := range ops {
 					for _, b := range ops[i:] {
@@ -668,6 +668,10 @@ var checks = map[string]Check{
 				}
 				j := sched("c14_soup", params, 0, 2)
 				j.Race = true
+				if pr[0] == "errcall" {
+					j.Shards = 8 // three calls in flight: a larger space
+					j.Budget = 240
+				}
 				if tier == "thorough" {
 					j.Bound = 1
 					j.Shards = 8
